@@ -72,6 +72,8 @@ def allowed_precondition(c):
     """guards that may precede a range check: failed-type rejection and the empty-array shortcut (nothing to label)"""
     if c[0] == 'isinstance' or (c[0] == 'not' and c[1][0] == 'isinstance'):
         return True
+    if c[0] == 'not':
+        return allowed_precondition(c[1])
     if c[0] == 'cmp' and c[1] in ('NotEq', 'Eq') and ((c[2] == C(0) and c[3][0] == 'len') or (c[3] == C(0) and c[2][0] == 'len')):
         return True
     if c[0] == 'cmp0' and len(c[2][2]) == 1 and c[2][2][0][0][0] == 'len':
